@@ -41,7 +41,49 @@ GATED_RULE = ("histories over {Gateable event(id in 3 ids + empty id, flush?, cl
               "error on a chosen group id), random up to 200 ops plus every sequence over a 9-symbol alphabet up to the tier's depth, "
               "each followed by one probe flush event per id; a case is non-trivial when a group was sent or flushed, distinct by op list")
 
+DISPATCH_RUN = dict(
+    model="dispatch", sub="dispatch", driver="dispatch",
+    quick=["-n", "150", "-sched", "3", "-sweep", "2"],
+    thorough=["-n", "4000", "-sched", "8", "-sweep", "60"],
+    search=["-n", "1500", "-sched", "5", "-sweep", "20"],
+)
+DISPATCH_ASSUME = [
+    "Go's select, unbuffered channels, sync.WaitGroup and goroutine creation behave as modelled (labels of Dispatch.fire)",
+    "sync.Map.Range visits each present key once (no concurrent registry change during the Send under test)",
+    "weak fairness of the Go scheduler: an enabled step is eventually taken (the theorems state enabledness, termination and safety)",
+    "the hook trace is a linearisation consistent with the real order of the protocol steps (hooks log before Done/after select, see DESIGN.md §5.2)",
+]
+DISPATCH_RULE = ("real Broker.Send runs over generated sets of 0..4 pipelines x 2..5 nodes x outcomes {pass, replace, drop, error}, both thresholds in "
+                 "0..n+1, cancel before the call / never / at a chosen hook event (plus a sweep over every cancel position for some configurations), "
+                 "a node held inside Process, and seeded schedule perturbation; each run's hook trace is replayed through Dispatch.fire by the Lean "
+                 "driver (every label must be enabled, the end state terminal, the collected Status equal to the ghost `got`); a run is non-trivial "
+                 "when it has at least one pipeline, distinct by its full trace")
+
 PROPS = {
+    "C01": dict(
+        module="Evl.Props.C01",
+        theorems=["Evl.C01.order", "Evl.C01.unstarted_empty", "Evl.C01.complete", "Evl.C01.selection", "Evl.C01.selection_once",
+                  "Evl.C01.stopIndex_eq"],
+        runs=[DISPATCH_RUN, REGISTRY_RUN], oracle_prefixes=["C01"], models=["M2 Dispatch", "M1 Registry"],
+        trusted_base=TB_COMMON, assumptions=DISPATCH_ASSUME + M1_ASSUME + ["the identity of the event handed from node k to node k+1 is checked by the harness oracle on the implementation, not carried by the Lean model"],
+        rule=DISPATCH_RULE + " || " + M1_RULE,
+    ),
+    "C02": dict(
+        module="Evl.Props.C02",
+        theorems=["Evl.C02.sound", "Evl.C02.sinks_sublist", "Evl.C02.complete", "Evl.C02.error_iff", "Evl.C02.threshold_negative",
+                  "Evl.C02.threshold_readback", "Evl.C02.thresholdSinks_readback"],
+        runs=[DISPATCH_RUN, REGISTRY_RUN], oracle_prefixes=["C02"], models=["M2 Dispatch", "M1 Registry"],
+        trusted_base=TB_COMMON, assumptions=DISPATCH_ASSUME + M1_ASSUME, rule=DISPATCH_RULE + " || " + M1_RULE,
+    ),
+    "C03": dict(
+        module="Evl.Props.C03",
+        theorems=["Evl.C03.progress", "Evl.C03.prompt", "Evl.C03.measure_decreases", "Evl.C03.terminates", "Evl.C03.clean",
+                  "Evl.C03.no_send_on_closed", "Evl.C03.closed_is_final", "Evl.C03.done_matches_add", "Evl.C03.add_is_safe"],
+        runs=[DISPATCH_RUN], oracle_prefixes=["C03"], models=["M2 Dispatch"],
+        trusted_base=TB_COMMON,
+        assumptions=DISPATCH_ASSUME + ["partial: wall-clock promptness is measured by the harness (Send must return within 0.5 s of a cancel while nodes are held) but not part of any theorem; `prompt` is an enabledness statement"],
+        rule=DISPATCH_RULE,
+    ),
     "C05": dict(
         module="Evl.Props.C05",
         theorems=["Evl.C05.accept_iff", "Evl.C05.failed_noop", "Evl.C05.failed_graph_residue", "Evl.C05.isAny_iff",
